@@ -88,7 +88,11 @@ func fill(b []byte, v byte) {
 type worker struct {
 	secondary bool // checkptr / asan pass: every buffer is its own allocation of the exact size
 	slow      bool // VERIF_BATCH re-run: print every case before it is executed
+	thorough  bool
 	arena     []byte
+	gArena    []byte // guard-filled arena of the windowed destination sweep (re-used for small sizes)
+	gPristine []byte // what gArena looked like before any call
+	windows   int64  // Marshal calls made with a destination window whose capacity exceeds its length
 	sink      bytes.Buffer
 	ow        *xbinary.ObjectsWriter
 
@@ -99,7 +103,7 @@ type worker struct {
 }
 
 func newWorker(secondary bool) *worker {
-	w := &worker{secondary: secondary, classes: map[string]int64{}}
+	w := &worker{secondary: secondary, classes: map[string]int64{}, thorough: os.Getenv("VERIF_TIER") == "thorough"}
 	w.ow = &xbinary.ObjectsWriter{Writer: &w.sink}
 	return w
 }
@@ -116,6 +120,117 @@ func (w *worker) alloc(n int) []byte {
 	b := w.arena[:n:n]
 	w.arena = w.arena[n:]
 	return b
+}
+
+// --- windowed destinations -----------------------------------------------------------------------
+//
+// The exact sweep hands Marshal* destinations whose capacity equals their length (three-index slices
+// or heap objects of exactly that size). Real callers also pass windows of larger buffers (rec[:n],
+// pooled buffers): len(dst) < cap(dst). An encoder that consults cap(dst) or re-slices dst beyond its
+// length does not fault then; it silently overwrites what follows the window. The windowed sweep
+// therefore repeats every destination length with dst = arena[off:off+L] (two-index form, the spare
+// capacity is at least size+8) inside an arena pre-filled with a position dependent guard pattern, and
+// checks after every call that each arena byte outside dst[:n] (success) / outside dst (failure: what a
+// failing Marshal leaves inside its own destination is not judged) still holds the guard.
+
+const (
+	guardPre    = 16
+	guardWindow = 64
+)
+
+func guardByte(i int) byte { return byte(i*197+101) ^ byte(i>>8) ^ 0x3c }
+
+// guarded returns the arena (guard pattern everywhere) and the pristine copy for encodings of size bytes.
+func (w *worker) guarded(size int) (arena, pristine []byte) {
+	need := guardPre + 2*size + 48
+	if need > 1<<16 {
+		pristine = make([]byte, need)
+		for i := range pristine {
+			pristine[i] = guardByte(i)
+		}
+		return append([]byte(nil), pristine...), pristine
+	}
+	if len(w.gPristine) < need {
+		w.gPristine = make([]byte, 1<<16)
+		for i := range w.gPristine {
+			w.gPristine[i] = guardByte(i)
+		}
+		w.gArena = make([]byte, 1<<16)
+	}
+	arena, pristine = w.gArena[:need:need], w.gPristine[:need:need]
+	copy(arena, pristine)
+	return
+}
+
+// windowSweep runs the destination-length sweep with windows of a guarded arena. sfx is appended to
+// every signature (the length class of byte strings). Lengths must be visited in ascending order:
+// then nothing outside the current window has ever been a legitimate target.
+func windowSweep(w *worker, M, sfx, who string, size int, enc []byte, reduced bool, marshal func(dst []byte) (int, error, any)) *vio {
+	arena, pristine := w.guarded(size)
+	off := guardPre
+	step := max(1, size/64)
+	intact := func(exemptHi int, full bool) (int, bool) {
+		if !bytes.Equal(arena[:off], pristine[:off]) {
+			for i := 0; i < off; i++ {
+				if arena[i] != pristine[i] {
+					return i - off, false
+				}
+			}
+		}
+		lo := off + exemptHi
+		hi := len(arena)
+		if !full {
+			hi = min(hi, lo+guardWindow)
+		}
+		if !bytes.Equal(arena[lo:hi], pristine[lo:hi]) {
+			for i := lo; i < hi; i++ {
+				if arena[i] != pristine[i] {
+					return i - off, false
+				}
+			}
+		}
+		return 0, true
+	}
+	return sweepLens(size, reduced, func(L int) *vio {
+		dst := arena[off : off+L] // two-index on purpose: cap(dst) = len(arena)-off >= L+size+8
+		w.windows++
+		n, err, pan := marshal(dst)
+		where := fmt.Sprintf("%s into a %d-byte window (capacity %d, needs %d)", who, L, cap(dst), size)
+		if pan != nil {
+			return vf(M+"/window-panic"+sfx, "%s: panic %v", where, pan)
+		}
+		full := size <= 1024 || L%step == 0 || L >= size
+		if L < size {
+			if err == nil {
+				pos, ok := intact(L, true)
+				damage := "the bytes behind the window are intact"
+				if !ok {
+					damage = fmt.Sprintf("and the arena byte at window offset %d (outside the destination) was overwritten", pos)
+				}
+				return vf(M+"/window-short-buffer-accepted"+sfx, "%s: n=%d err=nil; %s", where, n, damage)
+			}
+			if n != 0 {
+				return vf(M+"/window-short-buffer-n-nonzero"+sfx, "%s: n=%d with err=%v", where, n, err)
+			}
+			if pos, ok := intact(L, full); !ok {
+				return vf(M+"/window-wrote-outside-destination"+sfx, "%s: failed with err=%v, but the arena byte at window offset %d (outside the destination) was overwritten", where, err, pos)
+			}
+			return nil
+		}
+		if err != nil {
+			return vf(M+"/window-sufficient-buffer-rejected"+sfx, "%s: err=%v", where, err)
+		}
+		if n != size {
+			return vf(M+"/window-count-varies"+sfx, "%s: n=%d", where, n)
+		}
+		if !bytes.Equal(dst[:n], enc) {
+			return vf(M+"/window-bytes-vary"+sfx, "%s: wrote %s, into an exact buffer: %s", where, hx(dst[:n]), hx(enc))
+		}
+		if pos, ok := intact(n, true); !ok {
+			return vf(M+"/window-wrote-outside-destination"+sfx, "%s: reported %d bytes written, but the arena byte at window offset %d was overwritten", where, n, pos)
+		}
+		return nil
+	})
 }
 
 func mix(kind int, v uint64) uint64 {
@@ -294,6 +409,11 @@ func checkNum(c *numCodec, v uint64, w *worker) *vio {
 		if L > size && buf[size] != sentinel {
 			return vf(M+"/wrote-beyond-n", "%s into %d bytes: reported %d bytes written but byte %d was overwritten", who, L, n, size)
 		}
+	}
+
+	// 4b. the same lengths as windows (len < cap) of a guarded arena
+	if v := windowSweep(w, M, "", who, size, enc, false, func(dst []byte) (int, error, any) { return safeM(c.marshal, v, dst) }); v != nil {
+		return v
 	}
 
 	// 5. decode: from exactly the bytes produced, and with other bytes following
@@ -559,6 +679,13 @@ func checkBlob(c *blobCodec, val []byte, k kase, w *worker) *vio {
 		}
 		return nil
 	}); v != nil {
+		return v
+	}
+
+	// 4b. the same lengths as windows (len < cap) of a guarded arena; in the quick tier the strings
+	// above 64 KiB get the sampled lengths here (their exact sweep above is complete)
+	if v := windowSweep(w, M, "/"+lc, who, size, enc, w.secondary || k.Sub || (!w.thorough && size > 1<<16),
+		func(dst []byte) (int, error, any) { return c.safeMarshal(val, s, dst) }); v != nil {
 		return v
 	}
 
@@ -851,7 +978,7 @@ func boundaryValues(bitsN int) []uint64 {
 			p = 1 << uint(b)
 		}
 		for d := uint64(0); d < 4; d++ {
-			add(p - 2 + d)   // 2^b-2 .. 2^b+1
+			add(p - 2 + d)    // 2^b-2 .. 2^b+1
 			add(^(p - 2 + d)) // complements
 		}
 	}
@@ -871,9 +998,9 @@ type plan struct {
 	seed       int64
 	reduced    bool
 	subRandom  bool // random byte strings > 8 KiB: subset of the destination lengths
-	randNum    int // random values per wide numeric kind
-	randBlob   int // random byte strings per blob kind
-	allLensTo  int // every length 0..allLensTo per blob kind
+	randNum    int  // random values per wide numeric kind
+	randBlob   int  // random byte strings per blob kind
+	allLensTo  int  // every length 0..allLensTo per blob kind
 	bigLens    bool
 	concats    int
 	u16Stride  int
@@ -1002,10 +1129,12 @@ func (p plan) batches() []batch {
 func TestCheck(t *testing.T) {
 	run := report.New("C15", "exploration")
 	defer run.Finish(t)
-	run.Rule("per value: Marshal into an ample buffer defines the bytes produced; compared with Writable*Size, with ObjectsWriter (bytes and count), with Marshal into every destination length 0..size+1 (success iff length>=size, else n==0 and error), with Unmarshal of exactly those bytes and of those bytes followed by others (value, consumed count), newBuf=false/true, overwrite of the source after newBuf=true; plus seeded random concatenations of 1..20 items (single encodings concatenated == in-place marshalling == writer stream; decoded front to back, nothing left). distinct = distinct (kind, value) for numeric kinds + distinct (kind, length, content) for byte strings/strings + distinct concatenation encodings")
+	run.Rule("per value: Marshal into an ample buffer defines the bytes produced; compared with Writable*Size, with ObjectsWriter (bytes and count), with Marshal into every destination length 0..size+1 (success iff length>=size, else n==0 and error) — once with destinations whose capacity equals their length and once with windows arena[off:off+L] (len<cap, spare capacity >= size+8) of a guard-filled arena, where every arena byte outside the bytes reported written must keep the guard — with Unmarshal of exactly those bytes and of those bytes followed by others (value, consumed count), newBuf=false/true, overwrite of the source after newBuf=true; plus seeded random concatenations of 1..20 items (single encodings concatenated == in-place marshalling == writer stream; decoded front to back, nothing left). distinct = distinct (kind, value) for numeric kinds + distinct (kind, length, content) for byte strings/strings + distinct concatenation encodings")
 	run.Assume("the wire format itself is not part of the statement: only agreement between encoder, decoder, size predictor and stream writer is judged")
 	run.Assume("uint is 64 bits wide on the platform the check runs on")
 	run.Assume("bytes after the n reported by a successful Marshal must be left untouched ('number of bytes written')")
+	run.Assume("a Marshal call, failing or not, must not modify memory outside its destination slice dst[:len(dst)], even when cap(dst) > len(dst); what a failing Marshal leaves inside dst is not judged")
+	run.Assume("windowed sweep: guard verified over the whole arena for encodings <= 1 KiB, on 64 sampled lengths and on every success for longer ones, and over the 64 bytes behind the window on every call")
 
 	pass := os.Getenv("VERIF_PASS")
 	if pass == "" {
@@ -1083,6 +1212,7 @@ func collect(run *report.Run, workers []*worker) {
 	var evals int64
 	for _, w := range workers {
 		evals += w.evals
+		run.Add("window_destination_calls", w.windows)
 		all = append(all, w.hashes...)
 		for k, v := range w.classes {
 			classes[k] += v
@@ -1122,6 +1252,7 @@ func replay(run *report.Run, path string) {
 		return
 	}
 	w := newWorker(os.Getenv("VERIF_PASS") != "" && os.Getenv("VERIF_PASS") != "main")
+	w.thorough = true // a replayed case always gets every window length
 	run.Eval(1)
 	run.DistinctAdd(2)
 	run.Sample(doc.Witness)
